@@ -49,13 +49,16 @@ def gen_scenario(rng, sid):
             timers[str(t)] = jcmds(prog)
         actors.append(dict(start=jcmds(start), timers=timers))
     steps = []
+    if sid % 3 == 0:
+        # an EMPTY datagram is a datagram: the handler must be called with the (empty) message
+        steps.append(dict(k="send", to=rng.randrange(n), p="", garbage=False))
     for _ in range(rng.randint(2, 7)):
         r = rng.random()
         to = rng.randrange(n)
         if r < 0.25:
             steps.append(dict(k="wait", ms=rng.choice([5, 15, 40])))
         elif r < 0.32:
-            steps.append(dict(k="send", to=to, p=rng.choice(["not json", "{\"c\":1}", "", "[1,2"]), garbage=True))
+            steps.append(dict(k="send", to=to, p=rng.choice(["not json", "{\"c\":1}", "[1,2"]), garbage=True))
         else:
             cmds = []
             for _ in range(rng.randint(0, 3)):
